@@ -187,6 +187,9 @@ for (n, d, f, q) in [
     ("c06_sum_step", "compute_sum (fixed window, leaving-value cursor): equals the from-scratch windowed sum", ["vecdb::EagerVec::compute_sum", "vecdb::Cursor"], False),
     ("c06_max_step", "compute_max (monotonic deque rebuilt on resume): equals the from-scratch windowed maximum", ["vecdb::EagerVec::{compute_max,compute_monotonic_window}"], False),
     ("c06_add_step", "compute_add over two sources of unequal lengths: equals a[i]+b[i] up to the shorter source", ["vecdb::EagerVec::{compute_add,compute_transform2}"], True),
+    ("c06_change_step", "compute_change (fixed look-back 1..3) on a non-decreasing series: equals src[i] - src[i-len] (0 during warm-up)", ["vecdb::EagerVec::{compute_change,compute_with_lookback}"], True),
+    ("c06_lookback_step", "compute_lookback (variable monotone window starts): equals src[starts[i]]", ["vecdb::EagerVec::compute_lookback"], False),
+    ("c06_cumulative_binary_step", "compute_cumulative_binary over two sources: equals the running sum of a[i]+b[i] up to the shorter source", ["vecdb::EagerVec::{compute_cumulative_binary,compute_cumulative_transformed_binary}"], False),
     ("c06_all_time_high_step", "compute_all_time_high: equals the from-scratch running maximum (resumes from the stored value)", ["vecdb::EagerVec::{compute_all_time_high,compute_all_time_extreme}"], True),
     ("c06_cumulative_step", "compute_cumulative: equals the from-scratch prefix sum", ["vecdb::EagerVec::compute_cumulative"], True),
 ]:
